@@ -203,7 +203,7 @@ def producedRows : List ProducedRow := [
     stageBy := "entered+arg"
     output := "result"
     shape := Shape.mapLit [
-        { key := "cancelled", kind := .bool, src := "r.cancelled : bool", always := true },
+        { key := "cancelled", kind := .bool, src := "cancelled := r.cancelled : bool", always := true },
         { key := "close_requested", kind := .bool, src := "r.closed.Load() : atomic.Bool", always := true }] },
   { provider := "plugin"
     site := "startFailed"
